@@ -242,6 +242,10 @@ impl Prop for C09 {
             let p1 = format!("{pool} {{ T }} ::= SEQUENCE {{ v T, n INTEGER }}");
             push("parameterized", format!("parameterized|names={pool}|form=inline-constructed-arg"), vec![p1.clone(), format!("Mid ::= {pool} {{ SEQUENCE {{ a BOOLEAN }} }}")], vec!["Mid ::= SEQUENCE { v SEQUENCE { a BOOLEAN }, n INTEGER }".into()], vec!["Mid"]);
             push("parameterized", format!("parameterized|names={pool}|form=reference-arg"), vec![p1.clone(), "Tgt ::= INTEGER (0..7)".into(), format!("Mid ::= {pool} {{ Tgt }}")], vec!["Tgt ::= INTEGER (0..7)".into(), "Mid ::= SEQUENCE { v Tgt, n INTEGER }".into()], vec!["Mid"]);
+            let tagged = format!("{pool} {{ T }} ::= [APPLICATION 9] SEQUENCE {{ v T }}");
+            push("parameterized", format!("parameterized|names={pool}|form=tagged-template"), vec![tagged.clone(), format!("Mid ::= {pool} {{ BOOLEAN }}")], vec!["Mid ::= [APPLICATION 9] SEQUENCE { v BOOLEAN }".into()], vec!["Mid"]);
+            let tagged_ref = format!("{pool} {{ T }} ::= [3] T");
+            push("parameterized", format!("parameterized|names={pool}|form=tagged-parameter"), vec![tagged_ref.clone(), format!("Mid ::= {pool} {{ INTEGER }}")], vec!["Mid ::= [3] INTEGER".into()], vec!["Mid"]);
             let comp = format!("{pool} {{ T }} ::= SEQUENCE {{ v T, n INTEGER }}");
             push("parameterized", format!("parameterized|names={pool}|form=as-component"), vec![comp.clone(), format!("Mid ::= SEQUENCE {{ c {pool} {{ BOOLEAN }}, d NULL }}")], vec!["Mid ::= SEQUENCE { c SEQUENCE { v BOOLEAN, n INTEGER }, d NULL }".into()], vec!["Mid"]);
         }
